@@ -109,7 +109,15 @@ def ref_dual(accepts, reg_target, target=0.8, gamma=0.05, kappa=0.75, t0=10):
     return logs, log_bar
 
 
+def safety_reducer(log_step_sizes):
+    """A user-supplied reducer (module level, so it pickles): 0.8 x the smallest step size - for which
+    reducer([x]) != exp(x), so a single chain is NOT a case that can skip the reducer."""
+    return 0.8 * math.exp(min(log_step_sizes))
+
+
 def reduce_ref(name, logs):
+    if name == "custom":
+        return 0.8 * math.exp(min(logs))
     if name == "arith":
         return sum(math.exp(x) for x in logs) / len(logs)
     if name == "geom":
@@ -190,7 +198,9 @@ def direct_metric_history(rng, keys):
     # single-precision chain positions (e.g. initial states coming from a float32 pipeline): the adapters allocate
     # their accumulators like the position, so all tolerances scale with the precision ratio F
     F = 1.0
-    if rng.random() < 0.15 and tol * 2.0**29 < 0.01:
+    # (a rank-deficient single-precision covariance plus a tiny regularisation is not numerically positive definite:
+    # full covariances are only driven in single precision with n >= 4 dim samples)
+    if rng.random() < 0.15 and tol * 2.0**29 < 0.01 and (not full_cov or n >= 4 * dim):
         F = 2.0**29
         x = x.astype(np.float32)
         tol *= F
@@ -291,9 +301,10 @@ def direct_dual_history(rng, keys):
     system, model = zoo.build_system(spec)
     integ = mici.integrators.LeapfrogIntegrator(system, None)
     trans = _T(system, integ)
-    red = rng.choice(["arith", "geom", "min"])
+    red = rng.choice(["arith", "geom", "min", "custom"])
     A = mici.adapters
-    reducer = {"arith": A.arithmetic_mean_log_step_size_reducer, "geom": A.geometric_mean_log_step_size_reducer, "min": A.min_log_step_size_reducer}[red]
+    reducer = {"arith": A.arithmetic_mean_log_step_size_reducer, "geom": A.geometric_mean_log_step_size_reducer, "min": A.min_log_step_size_reducer,
+               "custom": safety_reducer}[red]
     kw = {"adapt_stat_target": rng.choice([0.6, 0.8, 0.9]), "log_step_size_reg_coefficient": rng.choice([0.05, 0.2]),
           "iter_decay_coeff": rng.choice([0.6, 0.75, 1.0]), "iter_offset": rng.choice([0, 10, 25])}
     fixed_target = rng.choice([None, None, 0.0, -1.0])
